@@ -418,7 +418,10 @@ def cover_group(bu, g, target, cfile, wd):
         ln = int(loc.get('line', 0))
         per.setdefault((fn, ln), []).append(gl.get('status') == 'satisfied')
     out_ = {}
+    entered = set(fn for (fn, ln), sts in per.items() if any(sts))     # functions some execution of this proof enters
     for (fn, ln), sts in sorted(per.items()):
+        if fn not in entered:
+            continue
         if not any(sts):
             text = lines[ln - 1].strip() if 0 < ln <= len(lines) else ''
             if text.startswith('__CPROVER_') or text in ('{', '}', ''):
